@@ -32,8 +32,8 @@ static const char* FLAG_NAMES[] = {
   "visit_holes","visit_full","visit_stop","edge_fail","purge_seen","live8","multi_heap","collect","large_page",
   "misuse_detected","arena","abandoned_visit","expand" };
 // ---- counters
-enum { C_ALLOCS = 0, C_FREES, C_REALLOCS, C_BYTES_VERIFIED, C_NULLS, C_EDGE_CALLS, C_VISITED_BLOCKS, C_EXCLUDED, C_PURGE_CALLS, C_OSCALLS, C_ZERO_CHECKED, C_OWN_CHECKS, C_NCOUNTERS };
-static const char* COUNTER_NAMES[] = { "allocs","frees","reallocs","bytes_verified","null_returns","edge_calls","visited_blocks","excluded_by_guard","purge_calls","os_calls","zero_bytes_checked","ownership_checks" };
+enum { C_ALLOCS = 0, C_FREES, C_REALLOCS, C_BYTES_VERIFIED, C_NULLS, C_EDGE_CALLS, C_VISITED_BLOCKS, C_EXCLUDED, C_PURGE_CALLS, C_OSCALLS, C_ZERO_CHECKED, C_OWN_CHECKS, C_OS_MAP, C_OS_UNMAP, C_OS_COMMIT, C_OS_PROTECT, C_OS_ADVISE, C_FAULT_HIT, C_NULL_UNDER_FAULT, C_NCOUNTERS };
+static const char* COUNTER_NAMES[] = { "allocs","frees","reallocs","bytes_verified","null_returns","edge_calls","visited_blocks","excluded_by_guard","purge_calls","os_calls","zero_bytes_checked","ownership_checks","os_map_calls","os_unmap_calls","os_commit_calls","os_protect_calls","os_advise_calls","faults_hit","null_under_fault" };
 
 static inline void* launder(void* p) { __asm__ volatile("" : "+r"(p)); return p; }
 
@@ -117,9 +117,11 @@ struct Exec {
   bool check_own = false;       // C10 ownership sweeps
   bool police_purge = false;    // C13: purge ranges must not hit live blocks
   bool allow_null = false;      // OS faults armed → NULL is acceptable
+  std::vector<std::pair<uintptr_t,size_t>> refused_unmaps; bool os_counts_recorded = false; bool ever_faulted = false;   // C07 (a refused map of a segment-map part leaves segments unregistered: mi_is_in_heap_region degrades by design)
   std::vector<Watch> watches; long purge_calls_seen = 0; long opt_purge_delay = 10, opt_purge_mult = 10; uintptr_t last_free_near_seg = 0;   // C18
   bool forced_abandon = false;  // target_segments_per_thread >= 2
   bool visit_abandoned_on = false;
+  bool known_f12_off = false;
   bool known_f5_off = false;    // replay of the F5 demonstration: do not exclude
   uintptr_t exempt_lo = 0, exempt_hi = 0;   // block being released inside a realloc call (purge police)
   size_t last_areas = 0; bool have_last_areas = false;
@@ -223,7 +225,7 @@ struct Exec {
   void op_alloc(const Op& op); void op_free(const Op& op); void op_realloc(const Op& op); void op_expand(const Op& op);
   void op_fill(const Op& op); void op_rfree(const Op& op, bool threaded); void op_talloc(const Op& op);
   void op_heap(const Op& op); void op_visit(const Op& op); void op_census(const Op& op); void op_edge(const Op& op); void op_arena(const Op& op);
-  void op_opt(const Op& op); void op_misuse(const Op& op); void op_owncheck(); void op_c18(const Op& op);
+  void op_opt(const Op& op); void op_misuse(const Op& op); void op_owncheck(); void op_c18(const Op& op); void op_c07(const Op& op);
   uint8_t* call_alloc(const std::string& f, int h, size_t n, size_t c, size_t a, size_t o, bool& zeroing, size_t& req, size_t& eff_a, size_t& eff_o, bool& valid);
   void free_slot(int s, const std::string& f);
   void finish();
